@@ -1,1 +1,1365 @@
-//! C05 harnesses.
+//! C05 — image polling accounts for exactly the frames it delivers, in every poll variant.
+//!
+//! Two regimes over one real `LogBuffers` (3 * 256 + 4096 bytes), `UnsafeBufferPosition` and `Image`:
+//!
+//! R1 (`c05_<variant>`, `c05_havoc_*`; `fs=4865`): per literal instance the LAYOUT is constant - term count (=> partition
+//!    and high position bits, up to 2^31 - 1), start offset, frame lengths and the stored length words (+len committed,
+//!    -len claimed / in flight, 0 untouched; gaps included) - and every VALUE is symbolic: DATA / PAD per frame, flags,
+//!    session id, reserved value, first payload byte, initial term id, fragment limit (any i32), position bound
+//!    (any i64), block length limit (any i32), one handler action per fragment. Fast: quick tier.
+//! R2 (`c05_sym_<variant>`; default field sensitivity): nothing is literal - any term count, any start offset, up to
+//!    three committed frames of any lengths, every other byte of the log unconstrained. Minutes of SAT: thorough tier.
+//!
+//! Oracle: the reference walkers `walk` / `walk_peek` / `walk_block` / `sym_walk`, written from the property statement
+//! and the Aeron reader protocol over the harness' own frame table (never from the code under test), in i64.
+//! Findings decided here (see /verif/native/tests/c05.rs): bounded_poll / bounded_controlled_poll narrowed
+//! `bound - position + offset` to i32 (a bound > 2^31 behind the position became a positive limit offset);
+//! block_poll overflowed `term_offset + block_length_limit`.
+use super::hook;
+use super::util::*;
+use crate::concurrent::atomic_buffer::AtomicBuffer;
+use crate::concurrent::logbuffer::header::Header;
+use crate::concurrent::logbuffer::{data_frame_header as dfh, frame_descriptor as fd, log_buffer_descriptor as lbd};
+use crate::concurrent::position::{ReadablePosition, UnsafeBufferPosition};
+use crate::image::{ControlledPollAction, Image};
+use crate::utils::errors::AeronError;
+use crate::utils::log_buffers::LogBuffers;
+use crate::utils::types::Index;
+use std::ffi::CString;
+use std::sync::Arc;
+
+const T: i32 = 256;
+const LOG: usize = 3 * 256 + 4096;
+const NF: usize = 3; // frames per instance table
+const NC: usize = 4; // recorded handler calls (one more than can legally happen)
+
+/// Layout of one instance: literally constant. `tc` = number of terms the stream has advanced (=> partition tc % 3 and
+/// the high bits of the position), `start` = term offset of the subscriber position, `lens[..n]` = frame lengths
+/// (header included) of the frames laid out back to back from `start`, `words` = the length words actually stored.
+#[derive(Copy, Clone)]
+struct Inst {
+    tc: i64,
+    start: i32,
+    n: usize,
+    lens: [i32; NF],
+    /// lens[i] = committed, -lens[i] = claimed and still being written, 0 = untouched
+    words: [i32; NF],
+    /// C03 consumer side: every byte that is not a committed frame header / the next length word is symbolic garbage
+    havoc: bool,
+    /// controlled_peek only: index of the frame the peek starts from (>= the subscriber position)
+    from: usize,
+}
+
+impl Inst {
+    fn committed(&self, i: usize) -> bool {
+        self.words[i] > 0
+    }
+    /// number of leading committed frames
+    fn prefix(&self) -> usize {
+        let mut i = 0;
+        while i < self.n && self.committed(i) {
+            i += 1;
+        }
+        i
+    }
+    fn part(&self) -> i32 {
+        (self.tc % 3) as i32
+    }
+    fn pos0(&self) -> i64 {
+        self.tc * T as i64 + self.start as i64
+    }
+    fn term_begin(&self) -> i64 {
+        self.tc * T as i64
+    }
+    fn term_end(&self) -> i64 {
+        self.tc * T as i64 + T as i64
+    }
+    fn off(&self, i: usize) -> i32 {
+        let mut o = self.start as i64;
+        let mut k = 0;
+        while k < i {
+            o += align32(self.lens[k] as i64);
+            k += 1;
+        }
+        o as i32
+    }
+    fn end(&self) -> i32 {
+        self.off(self.n)
+    }
+    fn well_formed(&self) -> bool {
+        let mut ok = self.tc >= 0 && self.tc <= i32::MAX as i64 && self.start >= 0 && self.start % 32 == 0 && self.n <= NF && self.end() <= T && self.from <= self.n;
+        let mut k = 0;
+        while k < self.n {
+            ok = ok && self.lens[k] >= 32 && (self.words[k] == self.lens[k] || self.words[k] == -self.lens[k] || self.words[k] == 0);
+            k += 1;
+        }
+        ok
+    }
+    fn havoc(self) -> Inst {
+        Inst { havoc: true, ..self }
+    }
+    fn from(self, j: usize) -> Inst {
+        Inst { from: j, ..self }
+    }
+}
+
+// The layouts. Offsets in comments. Every `words` argument is a literal at the call site.
+/// partition 0, first term, frames at 0 / 32 / 96, next free slot 160
+fn lay_a(words: [i32; NF]) -> Inst {
+    Inst { tc: 0, start: 0, n: 3, lens: [32, 33, 49], words, havoc: false, from: 0 }
+}
+/// partition 1, second term, frames at 64 / 128 / 192, the last one ends exactly at the term end
+fn lay_b(words: [i32; NF]) -> Inst {
+    Inst { tc: 1, start: 64, n: 3, lens: [49, 64, 64], words, havoc: false, from: 0 }
+}
+/// partition 2, term count 2^23 + 3 (position has bit 31 set: exercises the i64 -> i32 narrowing), frames at 160 / 224
+fn lay_c(words: [i32; NF]) -> Inst {
+    Inst { tc: (1 << 23) + 3, start: 160, n: 2, lens: [64, 32, 32], words, havoc: false, from: 0 }
+}
+/// partition 1, the last term count an i32 term id difference can express, frames at 0 / 96 / 128 up to the term end
+fn lay_d(words: [i32; NF]) -> Inst {
+    Inst { tc: i32::MAX as i64, start: 0, n: 3, lens: [96, 32, 128], words, havoc: false, from: 0 }
+}
+/// partition 0, one header-only frame in the last slot of the term (224)
+fn lay_e(words: [i32; NF]) -> Inst {
+    Inst { tc: 3, start: 224, n: 1, lens: [32, 32, 32], words, havoc: false, from: 0 }
+}
+/// partition 2, nothing published at the subscriber position (96)
+fn lay_f() -> Inst {
+    Inst { tc: 5, start: 96, n: 0, lens: [32, 32, 32], words: [0, 0, 0], havoc: false, from: 0 }
+}
+
+/// Symbolic content of the frames of an instance.
+#[derive(Copy, Clone)]
+struct Frames {
+    init_tid: i32,
+    tid: i32,
+    pad: [bool; NF],
+    flags: [u8; NF],
+    sid: [i32; NF],
+    stream: i32,
+    rsv: [i64; NF],
+    byte0: [u8; NF],
+}
+
+impl Frames {
+    fn any(inst: &Inst) -> Frames {
+        let init_tid: i32 = kani::any();
+        Frames {
+            init_tid,
+            tid: init_tid.wrapping_add(inst.tc as i32), // the term id a real history has after tc rotations
+            pad: kani::any(),
+            flags: kani::any(),
+            sid: kani::any(),
+            stream: kani::any(),
+            rsv: kani::any(),
+            byte0: kani::any(),
+        }
+    }
+}
+
+fn err_handler(_e: AeronError) {}
+
+fn put_le<const N: usize>(m: &mut [u8; LOG], at: usize, b: [u8; N]) {
+    let mut i = 0;
+    while i < N {
+        m[at + i] = b[i];
+        i += 1;
+    }
+}
+
+/// Lay the frame table into the partition of the instance, byte by byte at literal indices (a typed store through
+/// the buffer accessors costs one SSA step per byte of the whole log object under raised field sensitivity).
+/// Plain mode: every frame of the table is written completely, only the length word tells committed from in flight
+/// (the most tempting state for a reader that does not honour the length word). Havoc mode: the committed prefix is
+/// written, then only the next length word (<= 0); every other byte keeps its symbolic garbage.
+fn write_frames(m: &mut [u8; LOG], inst: &Inst, f: &Frames) {
+    let base = (inst.part() * T) as usize;
+    let prefix = inst.prefix();
+    let mut i = 0;
+    while i < inst.n {
+        let o = inst.off(i);
+        let at = base + o as usize;
+        let len = inst.lens[i];
+        if !inst.havoc || i <= prefix {
+            put_le(m, at, inst.words[i].to_le_bytes());
+        }
+        if !inst.havoc || i < prefix {
+            m[at + 4] = 0;
+            m[at + 5] = f.flags[i];
+            put_le(m, at + 6, (if f.pad[i] { dfh::HDR_TYPE_PAD } else { dfh::HDR_TYPE_DATA }).to_le_bytes());
+            put_le(m, at + 8, o.to_le_bytes());
+            put_le(m, at + 12, f.sid[i].to_le_bytes());
+            put_le(m, at + 16, f.stream.to_le_bytes());
+            put_le(m, at + 20, f.tid.to_le_bytes());
+            put_le(m, at + 24, f.rsv[i].to_le_bytes());
+            if len > 32 {
+                m[at + 32] = f.byte0[i];
+            }
+        }
+        i += 1;
+    }
+    if inst.havoc && prefix == inst.n && inst.end() < T {
+        put_le(m, base + inst.end() as usize, 0i32.to_le_bytes());
+    }
+}
+
+struct World {
+    image: Image,
+    term: AtomicBuffer,
+    ctr: AtomicBuffer,
+    session: i32,
+}
+
+/// Real LogBuffers / UnsafeBufferPosition / Image over harness memory.
+fn world(log: &mut Mem<LOG>, ctr: &mut Mem<64>, inst: &Inst, f: &Frames, session: i32, pos0: i64) -> World {
+    pretouch();
+    assert!(inst.well_formed(), "C05: harness instance table is well formed");
+    assert!(*dfh::TYPE_FIELD_OFFSET == 6 && *dfh::FLAGS_FIELD_OFFSET == 5 && *dfh::TERM_ID_FIELD_OFFSET == 20 && *dfh::SESSION_ID_FIELD_OFFSET == 12
+        && *dfh::RESERVED_VALUE_FIELD_OFFSET == 24 && *dfh::TERM_OFFSET_FIELD_OFFSET == 8 && *dfh::STREAM_ID_FIELD_OFFSET == 16 && dfh::LENGTH == 32,
+        "C05: harness layout assumption");
+    write_frames(&mut log.0, inst, f);
+    put_le(&mut log.0, 3 * T as usize + *lbd::LOG_INITIAL_TERM_ID_OFFSET as usize, f.init_tid.to_le_bytes());
+    let p0 = pos0.to_le_bytes();
+    let mut i = 0;
+    while i < 8 {
+        ctr.0[i] = p0[i];
+        i += 1;
+    }
+    let lb = unsafe { LogBuffers::new(log.0.as_mut_ptr(), LOG as isize, T) };
+    let term = lb.atomic_buffer(inst.part());
+    let cb = ctr.buf();
+    let sp = UnsafeBufferPosition::new(cb, 0);
+    let image = Image::create(session, 7, 9, unsafe { CString::from_vec_unchecked(Vec::new()) }, &sp, Arc::new(lb), Box::new(err_handler as fn(AeronError)));
+    World { image, term, ctr: cb, session }
+}
+
+/// C03 consumer side: the whole active term starts as symbolic garbage (the other partitions and the meta data are
+/// not the reader's business: they stay zero and any access to them shows up in the access-trace harness).
+fn havoc_term(m: &mut [u8; LOG], base: usize) {
+    let g: [u8; 256] = kani::any();
+    let mut j = 0;
+    while j < 256 {
+        m[base + j] = g[j];
+        j += 1;
+    }
+}
+
+macro_rules! setup {
+    ($inst:ident, $f:ident, $log:ident, $ctr:ident, $w:ident) => {
+        let $f = Frames::any(&$inst);
+        let session: i32 = kani::any();
+        let mut $log = Mem::<LOG>::zeroed();
+        if $inst.havoc {
+            havoc_term(&mut $log.0, ($inst.part() * T) as usize);
+        }
+        let mut $ctr = if $inst.havoc { Mem::<64>::any() } else { Mem::<64>::zeroed() };
+        let mut $w = world(&mut $log, &mut $ctr, &$inst, &$f, session, $inst.pos0());
+    };
+}
+
+/// What the handler was handed, call by call.
+#[derive(Copy, Clone)]
+struct Rec {
+    calls: usize,
+    off: [i32; NC],
+    len: [i32; NC],
+    toff: [i32; NC],
+    tid: [i32; NC],
+    sid: [i32; NC],
+    flen: [i32; NC],
+    flags: [u8; NC],
+    rsv: [i64; NC],
+    b0: [u8; NC],
+    ctr: [i64; NC], // subscriber position counter as visible to the handler during the call
+    same_buf: bool,
+    init_tid_ok: bool,
+}
+
+impl Rec {
+    fn new() -> Rec {
+        Rec { calls: 0, off: [0; NC], len: [0; NC], toff: [0; NC], tid: [0; NC], sid: [0; NC], flen: [0; NC], flags: [0; NC], rsv: [0; NC],
+              b0: [0; NC], ctr: [0; NC], same_buf: true, init_tid_ok: true }
+    }
+    /// offset, length, header offset / frame length, visible position and buffer only (symbolic-layout regime: every
+    /// extra read of the log is an array-theory index; the other header fields are decided in regime R1)
+    fn note_lite(&mut self, term: &AtomicBuffer, ctr: &AtomicBuffer, b: &AtomicBuffer, off: Index, len: Index, h: &Header) {
+        let k = self.calls;
+        if k < NC {
+            self.off[k] = off;
+            self.len[k] = len;
+            self.toff[k] = h.term_offset();
+            self.flen[k] = h.frame_length();
+            self.ctr[k] = ctr.get::<i64>(0);
+        }
+        self.same_buf = self.same_buf && b.buffer() == term.buffer() && b.capacity() == T;
+        self.calls += 1;
+    }
+    fn note(&mut self, term: &AtomicBuffer, ctr: &AtomicBuffer, init_tid: i32, b: &AtomicBuffer, off: Index, len: Index, h: &Header) {
+        let k = self.calls;
+        if k < NC {
+            self.off[k] = off;
+            self.len[k] = len;
+            self.toff[k] = h.term_offset();
+            self.tid[k] = h.term_id();
+            self.sid[k] = h.session_id();
+            self.flen[k] = h.frame_length();
+            self.flags[k] = h.flags();
+            self.rsv[k] = h.reserved_value();
+            self.b0[k] = if len > 0 && off >= 0 && off < T { b.get::<u8>(off) } else { 0 };
+            self.ctr[k] = ctr.get::<i64>(0);
+        }
+        self.same_buf = self.same_buf && b.buffer() == term.buffer() && b.capacity() == T && h.buffer().buffer() == term.buffer();
+        self.init_tid_ok = self.init_tid_ok && h.initial_term_id() == init_tid;
+        self.calls += 1;
+    }
+}
+
+const ABORT: u8 = 0;
+const BREAK: u8 = 1;
+const COMMIT: u8 = 2;
+const CONTINUE: u8 = 3;
+
+fn action(acts: &[u8; NC], k: usize) -> Result<ControlledPollAction, AeronError> {
+    let a = if k < NC { acts[k] } else { CONTINUE };
+    Ok(match a {
+        ABORT => ControlledPollAction::Abort,
+        BREAK => ControlledPollAction::Break,
+        COMMIT => ControlledPollAction::Commit,
+        _ => ControlledPollAction::Continue,
+    })
+}
+
+fn any_actions() -> [u8; NC] {
+    let a: [u8; NC] = kani::any();
+    kani::assume(a[0] < 4 && a[1] < 4 && a[2] < 4 && a[3] < 4);
+    a
+}
+
+/// Expected outcome of one poll call.
+#[derive(Copy, Clone)]
+struct Exp {
+    calls: usize,      // handler invocations (including one that answered Abort)
+    counted: i32,      // fragments the call reports as read
+    slot: [usize; NC], // frame table index handed over by call k
+    vis: [i64; NC],    // position the counter shows while call k runs
+    end_pos: i64,      // subscriber position after the call (peek: position returned)
+    out: Out,
+}
+
+/// Which interesting branches a run went through (feeds the `[must]` reachability covers of the harness).
+#[derive(Copy, Clone)]
+struct Out {
+    pad: bool,    // padding skipped and a fragment delivered
+    unc: bool,    // stopped at an uncommitted frame after delivering
+    lim: bool,    // fragment limit (block limit) stopped the call in front of a committed frame
+    bound: bool,  // position bound strictly inside the term stopped the call in front of a committed frame
+    all: bool,    // every frame of the table consumed
+    end: bool,    // position reached the end of the term exactly
+    abort: bool,
+    brk: bool,
+    commit: bool,
+    cont: bool,
+    lag: bool,    // peek: result lags behind a delivered fragment without END flag
+    hi: bool,     // R2: three frames with padding among them, term count above 2^24, mid-term start
+    far: bool,    // R2: bound more than 2^32 behind a position above 2^33
+    unl: bool,    // R2 block: block length limit i32::MAX with a mid-term start
+    padlim: bool, // R2 block: leading padding handed over although longer than the limit
+}
+
+impl Out {
+    fn none() -> Out {
+        Out { pad: false, unc: false, lim: false, bound: false, all: false, end: false, abort: false, brk: false, commit: false, cont: false, lag: false, hi: false, far: false, unl: false, padlim: false }
+    }
+    fn or(self, o: Out) -> Out {
+        Out { pad: self.pad || o.pad, unc: self.unc || o.unc, lim: self.lim || o.lim, bound: self.bound || o.bound, all: self.all || o.all,
+              end: self.end || o.end, abort: self.abort || o.abort, brk: self.brk || o.brk, commit: self.commit || o.commit,
+              cont: self.cont || o.cont, lag: self.lag || o.lag, hi: self.hi || o.hi, far: self.far || o.far, unl: self.unl || o.unl,
+              padlim: self.padlim || o.padlim }
+    }
+}
+
+/// Reference walker (property statement + Aeron reader protocol): from the subscriber position take frames in order
+/// while the fragment limit is not reached, the frame starts below the position bound, the term has not ended and
+/// the frame is committed; padding is skipped (position moves over it), a data frame is handed to the handler exactly
+/// once with (offset + 32, length - 32); Abort stops before the fragment, Break after it, Commit publishes the
+/// position reached, Continue defers publication to the end of the call.
+fn walk(inst: &Inst, f: &Frames, fragment_limit: i32, bound: Option<i64>, acts: Option<&[u8; NC]>) -> Exp {
+    let mut e = Exp { calls: 0, counted: 0, slot: [0; NC], vis: [0; NC], end_pos: 0, out: Out::none() };
+    let mut pos: i64 = inst.pos0();
+    let mut vis: i64 = pos;
+    let mut padded = false;
+    let mut i = 0;
+    loop {
+        if e.counted as i64 >= fragment_limit as i64 {
+            e.out.lim = i < inst.n && inst.committed(i) && e.counted > 0;
+            break;
+        }
+        if pos >= inst.term_end() {
+            break;
+        }
+        if let Some(b) = bound {
+            if pos >= b {
+                e.out.bound = i < inst.n && inst.committed(i) && b > inst.pos0();
+                break;
+            }
+        }
+        if i >= inst.n {
+            break; // next length word is zero: nothing published there yet
+        }
+        if !inst.committed(i) {
+            e.out.unc = e.counted > 0;
+            break;
+        }
+        let next = pos + align32(inst.lens[i] as i64);
+        if f.pad[i] {
+            padded = true;
+            pos = next;
+            i += 1;
+            continue;
+        }
+        e.slot[e.calls] = i;
+        e.vis[e.calls] = vis;
+        let a = match acts {
+            Some(a) => a[e.calls],
+            None => CONTINUE,
+        };
+        e.calls += 1;
+        if a == ABORT {
+            e.out.abort = true;
+            break;
+        }
+        e.counted += 1;
+        pos = next;
+        i += 1;
+        if a == BREAK {
+            e.out.brk = true;
+            break;
+        }
+        if a == COMMIT {
+            e.out.commit = true;
+            vis = pos;
+        } else {
+            e.out.cont = true;
+        }
+    }
+    e.end_pos = pos;
+    e.out.pad = padded && e.counted > 0;
+    e.out.all = i == inst.n && inst.n > 0;
+    e.out.end = pos == inst.term_end();
+    e
+}
+
+/// The handler saw exactly the expected frames: offset, length, header fields, payload, buffer.
+fn check_deliveries(r: &Rec, e: &Exp, inst: &Inst, f: &Frames) {
+    assert!(r.calls == e.calls, "C05: the handler is handed exactly the committed data frames between old and new position (count)");
+    assert!(r.same_buf, "C05: fragment delivered from a buffer other than the active term buffer");
+    assert!(r.init_tid_ok, "C05: header carries the image's initial term id");
+    let mut k = 0;
+    while k < NF {
+        if k < e.calls {
+            let i = e.slot[k];
+            let o = inst.off(i);
+            assert!(r.off[k] == o + 32, "C05: fragment delivered with the wrong data offset");
+            assert!(r.len[k] == inst.lens[i] - 32, "C05: fragment delivered with the wrong data length");
+            assert!(r.toff[k] == o && r.flen[k] == inst.lens[i], "C05: header term offset / frame length are those of the delivered frame");
+            assert!(r.tid[k] == f.tid && r.sid[k] == f.sid[i], "C05: header term id / session id are those of the delivered frame");
+            assert!(r.flags[k] == f.flags[i] && r.rsv[k] == f.rsv[i], "C05: header flags / reserved value are those of the delivered frame");
+            assert!(inst.lens[i] == 32 || r.b0[k] == f.byte0[i], "C05: delivered payload is the frame's payload");
+        }
+        k += 1;
+    }
+}
+
+/// Position bookkeeping shared by every moving variant.
+fn check_position(w: &World, expected: i64, inst: &Inst) {
+    let after = w.ctr.get::<i64>(0);
+    assert!(after == expected, "C05: subscriber position moved by exactly the delivered frames plus skipped padding");
+    assert!(w.image.position() == after, "C05: Image::position reports the subscriber position counter");
+    assert!(after >= inst.pos0(), "C05: subscriber position moved backwards");
+    assert!(after <= inst.term_end(), "C05: subscriber position moved past the end of the current term");
+    assert!(after % 32 == 0, "C05: subscriber position left on a frame boundary");
+    let p = inst.prefix();
+    if p < inst.n {
+        assert!(after <= inst.term_begin() + inst.off(p) as i64, "C05: subscriber position moved past an uncommitted frame");
+    } else {
+        assert!(after <= inst.term_begin() + inst.end() as i64, "C05: subscriber position moved past the last published frame");
+    }
+}
+
+/// Commit publishes the position reached so far, Continue defers: what the handler sees in the counter while it runs.
+fn check_visible(r: &Rec, e: &Exp) {
+    let mut k = 0;
+    while k < NF {
+        assert!(k >= e.calls || r.ctr[k] == e.vis[k], "C05: position visible during a handler call is the last committed one (Commit publishes, Continue defers)");
+        k += 1;
+    }
+}
+
+/// No fragment starts at or after the caller's position bound (stated directly, not through the walker).
+fn check_bound(r: &Rec, inst: &Inst, bound: i64) {
+    let mut k = 0;
+    while k < NC {
+        assert!(k >= r.calls || inst.term_begin() + (r.off[k] as i64 - 32) < bound, "C05: fragment delivered that starts at or after the position bound");
+        k += 1;
+    }
+}
+
+// ------------------------------------------------------------------------------------------------ poll variants
+
+fn run_poll(inst: Inst) -> Out {
+    setup!(inst, f, log, ctr, w);
+    let limit: i32 = kani::any();
+    let e = walk(&inst, &f, limit, None, None);
+    let mut r = Rec::new();
+    let (term, cb) = (w.term, w.ctr);
+    let got = w.image.poll(&mut |b: &AtomicBuffer, o: Index, l: Index, h: &Header| r.note(&term, &cb, f.init_tid, b, o, l, h), limit);
+    assert!(got == e.counted, "C05: poll returns the number of fragments delivered");
+    assert!(got == 0 || got <= limit, "C05: poll delivered more fragments than the fragment limit");
+    check_deliveries(&r, &e, &inst, &f);
+    check_position(&w, e.end_pos, &inst);
+    check_visible(&r, &e);
+    std::mem::forget(w);
+    e.out
+}
+
+fn run_bounded(inst: Inst) -> Out {
+    setup!(inst, f, log, ctr, w);
+    let limit: i32 = kani::any();
+    let bound: i64 = kani::any();
+    let e = walk(&inst, &f, limit, Some(bound), None);
+    let mut r = Rec::new();
+    let (term, cb) = (w.term, w.ctr);
+    let got = w.image.bounded_poll(|b: &AtomicBuffer, o: Index, l: Index, h: &Header| r.note(&term, &cb, f.init_tid, b, o, l, h), bound, limit);
+    check_bound(&r, &inst, bound);
+    assert!(got == e.counted, "C05: bounded_poll returns the number of fragments delivered");
+    assert!(got == 0 || got <= limit, "C05: bounded_poll delivered more fragments than the fragment limit");
+    check_deliveries(&r, &e, &inst, &f);
+    check_position(&w, e.end_pos, &inst);
+    check_visible(&r, &e);
+    std::mem::forget(w);
+    e.out
+}
+
+fn run_controlled(inst: Inst) -> Out {
+    setup!(inst, f, log, ctr, w);
+    let limit: i32 = kani::any();
+    let acts = any_actions();
+    let e = walk(&inst, &f, limit, None, Some(&acts));
+    let mut r = Rec::new();
+    let (term, cb) = (w.term, w.ctr);
+    let got = w.image.controlled_poll(
+        |b: &AtomicBuffer, o: Index, l: Index, h: &Header| {
+            let k = r.calls;
+            r.note(&term, &cb, f.init_tid, b, o, l, h);
+            action(&acts, k)
+        },
+        limit,
+    );
+    assert!(got == e.counted, "C05: controlled_poll returns the number of fragments consumed (an aborted one is not counted)");
+    assert!(got == 0 || got <= limit, "C05: controlled_poll delivered more fragments than the fragment limit");
+    check_deliveries(&r, &e, &inst, &f);
+    check_position(&w, e.end_pos, &inst);
+    check_visible(&r, &e);
+    if e.out.abort {
+        let aborted = inst.off(e.slot[e.calls - 1]);
+        assert!(cb.get::<i64>(0) == inst.term_begin() + aborted as i64 || r.calls == 0, "C05: Abort leaves the position just before the aborted fragment");
+    }
+    std::mem::forget(w);
+    e.out
+}
+
+fn run_bounded_controlled(inst: Inst) -> Out {
+    setup!(inst, f, log, ctr, w);
+    let limit: i32 = kani::any();
+    let bound: i64 = kani::any();
+    let acts = any_actions();
+    let e = walk(&inst, &f, limit, Some(bound), Some(&acts));
+    let mut r = Rec::new();
+    let (term, cb) = (w.term, w.ctr);
+    let got = w.image.bounded_controlled_poll(
+        |b: &AtomicBuffer, o: Index, l: Index, h: &Header| {
+            let k = r.calls;
+            r.note(&term, &cb, f.init_tid, b, o, l, h);
+            action(&acts, k)
+        },
+        bound,
+        limit,
+    );
+    check_bound(&r, &inst, bound);
+    assert!(got == e.counted, "C05: bounded_controlled_poll returns the number of fragments consumed");
+    assert!(got == 0 || got <= limit, "C05: bounded_controlled_poll delivered more fragments than the fragment limit");
+    check_deliveries(&r, &e, &inst, &f);
+    check_position(&w, e.end_pos, &inst);
+    check_visible(&r, &e);
+    std::mem::forget(w);
+    e.out
+}
+
+/// Abort => the fragment is handed over again by the next poll (and nothing before it is).
+fn run_controlled_redelivery(inst: Inst) -> Out {
+    setup!(inst, f, log, ctr, w);
+    let acts = any_actions();
+    let e = walk(&inst, &f, i32::MAX, None, Some(&acts));
+    let mut r = Rec::new();
+    let (term, cb) = (w.term, w.ctr);
+    let _ = w.image.controlled_poll(
+        |b: &AtomicBuffer, o: Index, l: Index, h: &Header| {
+            let k = r.calls;
+            r.note(&term, &cb, f.init_tid, b, o, l, h);
+            action(&acts, k)
+        },
+        i32::MAX,
+    );
+    kani::assume(e.out.abort);
+    let mut r2 = Rec::new();
+    let got2 = w.image.controlled_poll(
+        |b: &AtomicBuffer, o: Index, l: Index, h: &Header| {
+            r2.note(&term, &cb, f.init_tid, b, o, l, h);
+            Ok(ControlledPollAction::Continue)
+        },
+        1,
+    );
+    let s = e.slot[e.calls - 1];
+    assert!(got2 == 1 && r2.calls == 1, "C05: the aborted fragment is delivered again by the next poll");
+    assert!(r2.off[0] == inst.off(s) + 32 && r2.len[0] == inst.lens[s] - 32 && r2.sid[0] == f.sid[s], "C05: the fragment redelivered after Abort is the aborted one");
+    assert!(cb.get::<i64>(0) == inst.term_begin() + inst.off(s) as i64 + align32(inst.lens[s] as i64), "C05: position after the redelivery is just past the fragment");
+    std::mem::forget(w);
+    e.out
+}
+
+// ------------------------------------------------------------------------------------------------ controlled_peek
+
+/// Reference for controlled_peek: scan from `initial` while below the limit position; padding and fragments carrying
+/// the END flag move the result (a position after a complete message), Abort stops before, Break after the fragment.
+fn walk_peek(inst: &Inst, f: &Frames, limit_position: i64, acts: &[u8; NC]) -> Exp {
+    let mut e = Exp { calls: 0, counted: 0, slot: [0; NC], vis: [0; NC], end_pos: 0, out: Out::none() };
+    let mut i = inst.from;
+    let mut pos: i64 = inst.term_begin() + inst.off(i) as i64;
+    let mut result = pos;
+    let mut padded = false;
+    loop {
+        if pos >= limit_position {
+            e.out.bound = i < inst.n && inst.committed(i) && limit_position > inst.term_begin() + inst.off(inst.from) as i64;
+            break;
+        }
+        if pos >= inst.term_end() {
+            break;
+        }
+        if i >= inst.n {
+            break;
+        }
+        if !inst.committed(i) {
+            e.out.unc = e.counted > 0;
+            break;
+        }
+        let next = pos + align32(inst.lens[i] as i64);
+        if f.pad[i] {
+            padded = true;
+            pos = next;
+            result = pos;
+            i += 1;
+            continue;
+        }
+        e.slot[e.calls] = i;
+        e.vis[e.calls] = inst.pos0();
+        let a = acts[e.calls];
+        e.calls += 1;
+        if a == ABORT {
+            e.out.abort = true;
+            break;
+        }
+        e.counted += 1;
+        pos = next;
+        if f.flags[i] & fd::END_FRAG != 0 {
+            result = pos;
+        }
+        i += 1;
+        if a == BREAK {
+            e.out.brk = true;
+            break;
+        }
+        if a == COMMIT {
+            e.out.commit = true;
+        } else {
+            e.out.cont = true;
+        }
+    }
+    e.end_pos = result;
+    e.out.pad = padded && e.counted > 0;
+    e.out.all = i == inst.n && inst.n > 0;
+    e.out.end = result == inst.term_end();
+    e.out.lag = result < pos;
+    e
+}
+
+fn run_peek(inst: Inst) -> Out {
+    setup!(inst, f, log, ctr, w);
+    let limit_position: i64 = kani::any();
+    let acts = any_actions();
+    let initial = inst.term_begin() + inst.off(inst.from) as i64;
+    let e = walk_peek(&inst, &f, limit_position, &acts);
+    let mut r = Rec::new();
+    let (term, cb) = (w.term, w.ctr);
+    let res = w.image.controlled_peek(
+        initial,
+        |b: &AtomicBuffer, o: Index, l: Index, h: &Header| {
+            let k = r.calls;
+            r.note(&term, &cb, f.init_tid, b, o, l, h);
+            action(&acts, k)
+        },
+        limit_position,
+    );
+    let got = vok!(res, "C05: controlled_peek refused an aligned position between the subscriber position and the term end");
+    check_bound(&r, &inst, limit_position);
+    check_deliveries(&r, &e, &inst, &f);
+    check_visible(&r, &e);
+    assert!(got == e.end_pos, "C05: controlled_peek returns the position after the last complete message it scanned");
+    assert!(got >= initial && got <= inst.term_end(), "C05: controlled_peek result is between the initial position and the term end");
+    assert!(cb.get::<i64>(0) == inst.pos0() && w.image.position() == inst.pos0(), "C05: controlled_peek must not move the subscriber position");
+    std::mem::forget(w);
+    e.out
+}
+
+fn position_valid(inst: &Inst, p: i64) -> bool {
+    p >= inst.pos0() && p <= inst.term_end() && p % 32 == 0
+}
+
+/// controlled_peek from a position that is not an aligned position in [subscriber position, term end]: refused,
+/// nothing delivered, nothing moved.
+fn run_peek_invalid(inst: Inst) -> Out {
+    setup!(inst, f, log, ctr, w);
+    let initial: i64 = kani::any();
+    kani::assume(!position_valid(&inst, initial));
+    let mut calls = 0;
+    let res = w.image.controlled_peek(
+        initial,
+        |_b: &AtomicBuffer, _o: Index, _l: Index, _h: &Header| {
+            calls += 1;
+            Ok(ControlledPollAction::Continue)
+        },
+        i64::MAX,
+    );
+    match res {
+        Ok(_) => assert!(false, "C05: controlled_peek accepted a position outside [subscriber position, term end] or off the frame alignment"),
+        Err(e) => std::mem::forget(e),
+    }
+    assert!(calls == 0, "C05: a refused controlled_peek delivered a fragment");
+    assert!(w.ctr.get::<i64>(0) == inst.pos0(), "C05: a refused controlled_peek moved the subscriber position");
+    std::mem::forget(w);
+    Out::none()
+}
+
+// ------------------------------------------------------------------------------------------------ block_poll
+
+/// What the block handler (a plain `fn`, it cannot capture) was handed. The initial values are deliberately odd and
+/// distinct: Kani 0.68 was observed to give a zero-initialised `static mut usize` the same storage as the constant
+/// `RawVec` capacity 0 (a later `Vec::new()` then read the pointer stored here as its capacity).
+struct Blk {
+    calls: usize,
+    ptr: usize,
+    cap: i32,
+    off: i32,
+    len: i32,
+    session: i32,
+    term_id: i32,
+}
+static mut BLK: Blk = Blk { calls: 0x7700_0001, ptr: 0x7700_0002, cap: 0x7700_0003, off: 0x7700_0004, len: 0x7700_0005, session: 0x7700_0006, term_id: 0x7700_0007 };
+
+fn block_handler(b: &AtomicBuffer, off: Index, len: Index, session: i32, term_id: i32) {
+    unsafe {
+        BLK.calls += 1;
+        BLK.ptr = b.buffer() as usize;
+        BLK.cap = b.capacity();
+        BLK.off = off;
+        BLK.len = len;
+        BLK.session = session;
+        BLK.term_id = term_id;
+    }
+}
+
+/// Reference for block_poll (Aeron block scanner): whole committed frames from the subscriber position while they
+/// fit below position + block_length_limit and the term end; padding ends a block and is handed over alone (its
+/// header is all that has to be valid, so it may exceed the limit).
+fn walk_block(inst: &Inst, f: &Frames, block_length_limit: i32) -> (i64, Out) {
+    let mut out = Out::none();
+    let start = inst.start as i64;
+    let lim = core::cmp::min(start + block_length_limit as i64, T as i64);
+    let mut off = start;
+    let mut i = 0;
+    while off < lim && i < inst.n {
+        if !inst.committed(i) {
+            out.unc = off > start;
+            break;
+        }
+        let next = off + align32(inst.lens[i] as i64);
+        if f.pad[i] {
+            if off == start {
+                off = next;
+                out.pad = true;
+            }
+            break;
+        }
+        if next > lim {
+            out.lim = true;
+            break;
+        }
+        off = next;
+        i += 1;
+    }
+    out.all = i == inst.n && inst.n > 0;
+    out.end = off == T as i64;
+    (off - start, out)
+}
+
+fn run_block(inst: Inst) -> Out {
+    setup!(inst, f, log, ctr, w);
+    let block_length_limit: i32 = kani::any();
+    let (exp_len, out) = walk_block(&inst, &f, block_length_limit);
+    unsafe { BLK.calls = 0 };
+    let got = w.image.block_poll(block_handler, block_length_limit);
+    assert!(got as i64 == exp_len, "C05: block_poll returns the length of the block of whole committed frames within the block length limit");
+    unsafe {
+        if exp_len > 0 {
+            assert!(BLK.calls == 1, "C05: block_poll hands over exactly one block");
+            assert!(BLK.ptr == w.term.buffer() as usize && BLK.cap == T, "C05: block delivered from a buffer other than the active term buffer");
+            assert!(BLK.off == inst.start && BLK.len as i64 == exp_len, "C05: block is [subscriber offset, offset + length)");
+            assert!(BLK.session == w.session && BLK.term_id == f.tid, "C05: block carries the image's session id and the term id of its first frame");
+            assert!(exp_len <= block_length_limit as i64 || f.pad[0], "C05: block longer than the block length limit");
+        } else {
+            assert!(BLK.calls == 0, "C05: block handler called although no whole committed frame fits");
+        }
+    }
+    check_position(&w, inst.pos0() + exp_len, &inst);
+    std::mem::forget(w);
+    out
+}
+
+// ------------------------------------------------------------------------------------------------ closed image, set_position
+
+/// A closed image is inert: every poll flavour returns 0 / the position it was given, hands nothing over, moves nothing.
+fn run_closed(inst: Inst) -> Out {
+    setup!(inst, f, log, ctr, w);
+    w.image.close();
+    assert!(w.image.is_closed(), "C05: close closes");
+    let (limit, blimit): (i32, i32) = (kani::any(), kani::any());
+    let (bound, p): (i64, i64) = (kani::any(), kani::any());
+    let mut calls = 0;
+    let a = w.image.poll(&mut |_b: &AtomicBuffer, _o: Index, _l: Index, _h: &Header| calls += 1, limit);
+    let b = w.image.bounded_poll(|_b: &AtomicBuffer, _o: Index, _l: Index, _h: &Header| calls += 1, bound, limit);
+    let c = w.image.controlled_poll(|_b: &AtomicBuffer, _o: Index, _l: Index, _h: &Header| { calls += 1; Ok(ControlledPollAction::Continue) }, limit);
+    let d = w.image.bounded_controlled_poll(|_b: &AtomicBuffer, _o: Index, _l: Index, _h: &Header| { calls += 1; Ok(ControlledPollAction::Continue) }, bound, limit);
+    let e = vok!(w.image.controlled_peek(p, |_b: &AtomicBuffer, _o: Index, _l: Index, _h: &Header| { calls += 1; Ok(ControlledPollAction::Continue) }, bound),
+        "C05: controlled_peek on a closed image reports no error");
+    unsafe { BLK.calls = 0 };
+    let g = w.image.block_poll(block_handler, blimit);
+    assert!(a == 0 && b == 0 && c == 0 && d == 0 && g == 0, "C05: a closed image delivers nothing");
+    assert!(e == p, "C05: controlled_peek on a closed image returns the initial position");
+    assert!(calls == 0 && unsafe { BLK.calls } == 0, "C05: a closed image called a handler");
+    vok!(w.image.set_position(p), "C05: set_position on a closed image is ignored without error");
+    assert!(w.ctr.get::<i64>(0) == inst.pos0(), "C05: a closed image moved the subscriber position");
+    assert!(w.image.position() == inst.pos0(), "C05: a closed image reports the position it was closed at");
+    std::mem::forget(w);
+    Out::none()
+}
+
+/// set_position accepts exactly the 32-aligned positions in [subscriber position, end of the current term] (Aeron
+/// Image.validatePosition) and stores them; anything else is refused and leaves the position alone. No term bytes
+/// are read, so the current position is fully symbolic: any term count below 2^31, any frame boundary.
+// @verif tier=quick unwind=9 fs=4865
+#[kani::proof]
+fn c05_set_position_accepts_exactly_current_term() {
+    let inst = lay_f();
+    let f = Frames::any(&inst);
+    let mut log = Mem::<LOG>::zeroed();
+    let mut ctr = Mem::<64>::zeroed();
+    let tc: i64 = kani::any();
+    let slot: i64 = kani::any();
+    kani::assume(tc >= 0 && tc <= i32::MAX as i64 && slot >= 0 && slot < 8);
+    let cur = tc * T as i64 + slot * 32;
+    let w = world(&mut log, &mut ctr, &inst, &f, 1, cur);
+    let p: i64 = kani::any();
+    let valid = p >= cur && p <= (tc + 1) * T as i64 && p % 32 == 0;
+    match w.image.set_position(p) {
+        Ok(()) => {
+            assert!(valid, "C05: set_position accepted a position outside [subscriber position, term end] or off the frame alignment");
+            assert!(w.ctr.get::<i64>(0) == p && w.image.position() == p, "C05: set_position stores the accepted position");
+        }
+        Err(e) => {
+            assert!(!valid, "C05: set_position refused an aligned position between the subscriber position and the term end");
+            assert!(w.ctr.get::<i64>(0) == cur, "C05: a refused set_position moved the subscriber position");
+            std::mem::forget(e);
+        }
+    }
+    kani::cover!(valid && p == (tc + 1) * T as i64 && tc == i32::MAX as i64, "[must] term end of the last term accepted");
+    kani::cover!(valid && p == cur, "[must] current position accepted");
+    kani::cover!(!valid && p % 32 == 0 && p == cur - 32, "[must] position behind the subscriber refused");
+    std::mem::forget(w);
+}
+
+// ------------------------------------------------------------------------------------------------ C03 consumer side
+
+/// Every variant on a term whose bytes beyond the committed frames are symbolic garbage (only the next length word
+/// is known to be <= 0): the handlers see exactly the committed frames and the position stops in front of the garbage.
+fn run_havoc_plain(inst: Inst) -> Out {
+    let h = inst.havoc();
+    run_poll(h).or(run_bounded(h)).or(run_block(h))
+}
+
+fn run_havoc_controlled(inst: Inst) -> Out {
+    let h = inst.havoc();
+    run_controlled(h).or(run_bounded_controlled(h)).or(run_peek(h))
+}
+
+/// Access trace of one poll over a havocked term: inside the term buffer nothing at or beyond the first
+/// non-committed frame is loaded except its length word (by an acquire-class load), and nothing is stored.
+fn run_havoc_poll_trace(inst: Inst) -> Out {
+    let inst = inst.havoc();
+    setup!(inst, f, log, ctr, w);
+    let e = walk(&inst, &f, i32::MAX, None, None);
+    let base = w.term.buffer() as usize;
+    let boundary = base + inst.off(inst.prefix()) as usize;
+    let mut calls = 0;
+    hook::begin(u32::MAX, u32::MAX, None, true);
+    let got = w.image.poll(&mut |_b: &AtomicBuffer, _o: Index, _l: Index, _h: &Header| calls += 1, i32::MAX);
+    hook::end();
+    assert!(got == e.counted && calls == e.calls, "C05: poll over a havocked tail delivers exactly the committed frames");
+    check_position(&w, e.end_pos, &inst);
+    kani::cover!(hook::trace_len() >= 7, "[must] access trace holds the loads of two delivered frames and the stopping length word");
+    assert!(hook::trace_len() <= 12, "C05: harness trace bound (3 frames: 2 loads each, final length word, position load/store)");
+    let mut k = 0;
+    while k < 12 {
+        if k < hook::trace_len() {
+            let a = hook::trace_at(k);
+            if a.addr >= base && a.addr < base + T as usize {
+                assert!(!a.is_write, "C05: poll stored into the term buffer");
+                assert!(a.addr + a.len <= boundary || (a.addr == boundary && a.len == 4 && a.kind == hook::ACQUIRE),
+                    "C05: poll loaded bytes at or beyond a non-committed frame other than its length word (acquire)");
+            }
+        }
+        k += 1;
+    }
+    std::mem::forget(w);
+    e.out
+}
+
+/// Deliberately wrong expectation (vacuity witness): claims the position ignores the commit state.
+fn run_twin(inst: Inst) -> Out {
+    setup!(inst, f, log, ctr, w);
+    let got = w.image.poll(&mut |_b: &AtomicBuffer, _o: Index, _l: Index, _h: &Header| {}, i32::MAX);
+    assert!(w.ctr.get::<i64>(0) == inst.term_begin() + inst.end() as i64, "C05: TWIN position reaches the end of the table although a frame is not committed");
+    std::mem::forget(w);
+    Out::none()
+}
+
+// ------------------------------------------------------------------------------------------------ symbolic layout (regime R2)
+//
+// Second regime (HARNESS_GUIDE R2 / DESIGN 1): default field sensitivity, so the log object is one array-theory
+// array and NOTHING about the layout is literal: any term count below 2^31 (hence any partition and any high bits of
+// the position), any 32-aligned subscriber offset, up to three committed frames of ANY lengths and types, every other
+// byte of the whole log (bytes behind the committed frames, other partitions, meta data) unconstrained. The glue
+// predicate `wf` of DESIGN 3.2 is assumed on the memory by decoding it with the harness' own byte reader. The cost
+// moves from symex to the solver (minutes per harness): thorough tier.
+
+fn rd_i32(m: &[u8; LOG], at: usize) -> i32 {
+    i32::from_le_bytes([m[at], m[at + 1], m[at + 2], m[at + 3]])
+}
+
+/// Committed frames ahead of the subscriber position, decoded from the symbolic memory.
+struct SymTable {
+    n: usize,
+    off: [i32; NF + 1],
+    len: [i32; NF],
+    pad: [bool; NF],
+    flags: [u8; NF],
+    sid: [i32; NF],
+    tid: [i32; NF],
+}
+
+fn sym_table(m: &[u8; LOG], base: usize, start: i32, want_flags: bool, want_tid: bool) -> SymTable {
+    let mut t = SymTable { n: 0, off: [start; NF + 1], len: [0; NF], pad: [false; NF], flags: [0; NF], sid: [0; NF], tid: [0; NF] };
+    let mut off = start;
+    let mut open = true;
+    let mut i = 0;
+    while i < NF {
+        if open && off < T {
+            let at = base + off as usize;
+            let w = rd_i32(m, at);
+            if w > 0 {
+                kani::assume(w >= 32 && off as i64 + align32(w as i64) <= T as i64); // wf: frame lies inside the term
+                t.len[i] = w;
+                if want_flags {
+                    t.flags[i] = m[at + 5];
+                }
+                t.pad[i] = m[at + 6] == 0 && m[at + 7] == 0;
+                if i == 0 && want_tid {
+                    t.tid[i] = rd_i32(m, at + 20);
+                }
+                off += align32(w as i64) as i32;
+                t.n = i + 1;
+            } else {
+                open = false;
+            }
+        } else {
+            open = false;
+        }
+        t.off[i + 1] = off;
+        i += 1;
+    }
+    if open && off < T {
+        kani::assume(rd_i32(m, base + off as usize) <= 0); // bound of these harnesses: at most NF committed frames ahead
+    }
+    t
+}
+
+#[derive(Copy, Clone, PartialEq, Eq)]
+enum Variant {
+    Poll,
+    Bounded,
+    Controlled,
+    BoundedControlled,
+    Peek,
+    Block,
+}
+
+/// Reference for all fragment-wise variants over a decoded table (same rules as `walk` / `walk_peek`).
+fn sym_walk(t: &SymTable, term_begin: i64, from: usize, fragment_limit: i32, bound: Option<i64>, acts: Option<&[u8; NC]>, peek: bool, vis0: i64) -> Exp {
+    let mut e = Exp { calls: 0, counted: 0, slot: [0; NC], vis: [0; NC], end_pos: 0, out: Out::none() };
+    let mut i = from;
+    let mut pos: i64 = term_begin + t.off[i] as i64;
+    let mut result = pos;
+    let mut vis = vis0;
+    let mut step = 0;
+    while step <= NF {
+        step += 1;
+        if e.counted as i64 >= fragment_limit as i64 {
+            e.out.lim = i < t.n && e.counted > 0;
+            break;
+        }
+        if pos >= term_begin + T as i64 {
+            break;
+        }
+        if let Some(b) = bound {
+            if pos >= b {
+                e.out.bound = i < t.n && b > term_begin + t.off[from] as i64;
+                break;
+            }
+        }
+        if i >= t.n {
+            e.out.unc = e.counted > 0;
+            break;
+        }
+        let next = term_begin + t.off[i + 1] as i64;
+        if t.pad[i] {
+            e.out.pad = true;
+            pos = next;
+            result = pos;
+            i += 1;
+            continue;
+        }
+        e.slot[e.calls] = i;
+        e.vis[e.calls] = vis;
+        let a = match acts {
+            Some(a) => a[e.calls],
+            None => CONTINUE,
+        };
+        e.calls += 1;
+        if a == ABORT {
+            e.out.abort = true;
+            break;
+        }
+        e.counted += 1;
+        pos = next;
+        if !peek || t.flags[i] & fd::END_FRAG != 0 {
+            result = pos;
+        }
+        i += 1;
+        if a == BREAK {
+            e.out.brk = true;
+            break;
+        }
+        if a == COMMIT {
+            e.out.commit = true;
+            if !peek {
+                vis = pos;
+            }
+        } else {
+            e.out.cont = true;
+        }
+    }
+    e.end_pos = if peek { result } else { pos };
+    e.out.lag = result < pos;
+    e.out.all = i == t.n && t.n == NF;
+    e.out.end = e.end_pos == term_begin + T as i64;
+    e
+}
+
+fn sym_run(v: Variant) -> Out {
+    pretouch();
+    let mut log = Mem::<LOG>::any();
+    let mut ctr = Mem::<64>::zeroed();
+    let tc: i64 = kani::any();
+    let slot: i32 = kani::any();
+    kani::assume(tc >= 0 && tc <= i32::MAX as i64 && slot >= 0 && slot < 8);
+    let start = slot * 32;
+    let term_begin = tc * T as i64;
+    let pos0 = term_begin + start as i64;
+    let base = ((tc % 3) * T as i64) as usize;
+    let t = sym_table(&log.0, base, start, v == Variant::Peek, v == Variant::Block);
+    let p0 = pos0.to_le_bytes();
+    let mut i = 0;
+    while i < 8 {
+        ctr.0[i] = p0[i];
+        i += 1;
+    }
+    let lb = unsafe { LogBuffers::new(log.0.as_mut_ptr(), LOG as isize, T) };
+    let cb = ctr.buf();
+    let sp = UnsafeBufferPosition::new(cb, 0);
+    let session: i32 = kani::any();
+    let mut image = Image::create(session, 7, 9, unsafe { CString::from_vec_unchecked(Vec::new()) }, &sp, Arc::new(lb), Box::new(err_handler as fn(AeronError)));
+    let term = AtomicBuffer::new(unsafe { log.0.as_mut_ptr().add(base) }, T);
+
+    if v == Variant::Block {
+        let limit: i32 = kani::any();
+        // reference (Aeron block scanner): whole frames below min(start + limit, T); padding ends the block, alone if first
+        let lim = core::cmp::min(start as i64 + limit as i64, T as i64);
+        let mut end = start as i64;
+        let mut k = 0;
+        while k < NF {
+            if k < t.n && end < lim {
+                let next = t.off[k + 1] as i64;
+                if t.pad[k] {
+                    if k == 0 {
+                        end = next;
+                    }
+                    break;
+                }
+                if next > lim {
+                    break;
+                }
+                end = next;
+            } else {
+                break;
+            }
+            k += 1;
+        }
+        let exp_len = end - start as i64;
+        unsafe { BLK.calls = 0 };
+        let got = image.block_poll(block_handler, limit);
+        assert!(got as i64 == exp_len, "C05: block_poll returns the length of the block of whole committed frames within the block length limit");
+        unsafe {
+            if exp_len > 0 {
+                assert!(BLK.calls == 1 && BLK.ptr == term.buffer() as usize && BLK.cap == T && BLK.off == start && BLK.len as i64 == exp_len,
+                    "C05: block_poll hands over exactly one block [subscriber offset, offset + length) of the active term buffer");
+                assert!(BLK.session == session && BLK.term_id == t.tid[0], "C05: block carries the image's session id and the term id of its first frame");
+                assert!(exp_len <= limit as i64 || t.pad[0], "C05: block longer than the block length limit");
+            } else {
+                assert!(BLK.calls == 0, "C05: block handler called although no whole committed frame fits");
+            }
+        }
+        let after = cb.get::<i64>(0);
+        assert!(after == pos0 + exp_len, "C05: subscriber position moved by exactly the block length");
+        assert!(after <= term_begin + t.off[t.n] as i64 && after <= term_begin + T as i64, "C05: subscriber position moved past an uncommitted frame or the term end");
+        let mut out = Out::none();
+        out.lim = t.n == 3 && exp_len == (t.off[2] - start) as i64 && !t.pad[2] && tc > (1 << 24) && start > 0;
+        out.padlim = t.n >= 1 && t.pad[0] && exp_len > limit as i64 && limit > 0;
+        out.unl = limit == i32::MAX && start > 0 && exp_len > 0;
+        out.unc = t.n == 2 && t.off[2] < T && exp_len == (t.off[2] - start) as i64;
+        out.end = exp_len > 0 && end == T as i64;
+        std::mem::forget(image);
+        return out;
+    }
+
+    let peek = v == Variant::Peek;
+    let limit: i32 = if peek { i32::MAX } else { kani::any() };
+    let bound: i64 = kani::any();
+    let use_bound = v == Variant::Bounded || v == Variant::BoundedControlled || peek;
+    let acts = any_actions();
+    let use_acts = v == Variant::Controlled || v == Variant::BoundedControlled || peek;
+    let from: usize = if peek { kani::any() } else { 0 };
+    kani::assume(from <= t.n);
+    let e = sym_walk(&t, term_begin, from, limit, if use_bound { Some(bound) } else { None }, if use_acts { Some(&acts) } else { None }, peek, pos0);
+
+    let mut r = Rec::new();
+    let got: i64 = match v {
+        Variant::Poll => image.poll(&mut |b: &AtomicBuffer, o: Index, l: Index, h: &Header| r.note_lite(&term, &cb, b, o, l, h), limit) as i64,
+        Variant::Bounded => image.bounded_poll(|b: &AtomicBuffer, o: Index, l: Index, h: &Header| r.note_lite(&term, &cb, b, o, l, h), bound, limit) as i64,
+        Variant::Controlled => image.controlled_poll(
+            |b: &AtomicBuffer, o: Index, l: Index, h: &Header| {
+                let k = r.calls;
+                r.note_lite(&term, &cb, b, o, l, h);
+                action(&acts, k)
+            },
+            limit,
+        ) as i64,
+        Variant::BoundedControlled => image.bounded_controlled_poll(
+            |b: &AtomicBuffer, o: Index, l: Index, h: &Header| {
+                let k = r.calls;
+                r.note_lite(&term, &cb, b, o, l, h);
+                action(&acts, k)
+            },
+            bound,
+            limit,
+        ) as i64,
+        _ => vok!(
+            image.controlled_peek(
+                term_begin + t.off[from] as i64,
+                |b: &AtomicBuffer, o: Index, l: Index, h: &Header| {
+                    let k = r.calls;
+                    r.note_lite(&term, &cb, b, o, l, h);
+                    action(&acts, k)
+                },
+                bound,
+            ),
+            "C05: controlled_peek refused an aligned position between the subscriber position and the term end"
+        ),
+    };
+
+    assert!(r.calls == e.calls && r.same_buf, "C05: the handler is handed exactly the committed data frames between old and new position, from the active term buffer");
+    let mut k = 0;
+    while k < NF {
+        if k < e.calls {
+            let s = e.slot[k];
+            assert!(r.off[k] == t.off[s] + 32 && r.len[k] == t.len[s] - 32, "C05: fragment delivered with the wrong data offset / length");
+            assert!(r.toff[k] == t.off[s] && r.flen[k] == t.len[s], "C05: header term offset / frame length are those of the delivered frame");
+            assert!(r.ctr[k] == e.vis[k], "C05: position visible during a handler call is the last committed one (Commit publishes, Continue defers, peek never publishes)");
+            assert!(!use_bound || term_begin + (r.off[k] as i64 - 32) < bound, "C05: fragment delivered that starts at or after the position bound");
+        }
+        k += 1;
+    }
+    let after = cb.get::<i64>(0);
+    if peek {
+        assert!(got == e.end_pos, "C05: controlled_peek returns the position after the last complete message it scanned");
+        assert!(after == pos0 && image.position() == pos0, "C05: controlled_peek must not move the subscriber position");
+    } else {
+        assert!(got == e.counted as i64 && (got == 0 || got <= limit as i64), "C05: poll returns the number of fragments consumed, within the fragment limit");
+        assert!(after == e.end_pos && image.position() == after, "C05: subscriber position moved by exactly the delivered frames plus skipped padding");
+        assert!(after >= pos0 && after % 32 == 0, "C05: subscriber position moved backwards or off a frame boundary");
+    }
+    assert!(e.end_pos <= term_begin + t.off[t.n] as i64 && e.end_pos <= term_begin + T as i64 && after <= term_begin + t.off[t.n] as i64,
+        "C05: position moved past an uncommitted frame or the term end");
+    let mut out = e.out;
+    out.hi = t.n == 3 && e.out.pad && e.counted == 2 && tc > (1 << 24) && start > 0;
+    out.end = e.out.end && e.counted > 0;
+    out.unc = e.out.unc && t.off[t.n] < T;
+    out.bound = e.out.bound && e.counted > 0;
+    out.far = use_bound && bound < pos0 - (1i64 << 32) && t.n > 0 && pos0 > (1i64 << 33);
+    out.abort = e.out.abort && e.counted > 0;
+    out.commit = e.out.commit && e.out.cont;
+    out.lag = e.out.lag && from > 0;
+    std::mem::forget(image);
+    out
+}
+
+// ------------------------------------------------------------------------------------------------ instances
+
+macro_rules! must {
+    ($o:ident, pad) => { kani::cover!($o.pad, "[must] padding skipped"); };
+    ($o:ident, unc) => { kani::cover!($o.unc, "[must] stop at uncommitted frame"); };
+    ($o:ident, lim) => { kani::cover!($o.lim, "[must] limit hit in front of a committed frame"); };
+    ($o:ident, bound) => { kani::cover!($o.bound, "[must] bound inside the term hit in front of a committed frame"); };
+    ($o:ident, all) => { kani::cover!($o.all, "[must] every frame of the table consumed"); };
+    ($o:ident, end) => { kani::cover!($o.end, "[must] end of term reached exactly"); };
+    ($o:ident, abort) => { kani::cover!($o.abort, "[must] Abort taken"); };
+    ($o:ident, brk) => { kani::cover!($o.brk, "[must] Break taken"); };
+    ($o:ident, commit) => { kani::cover!($o.commit, "[must] Commit taken"); };
+    ($o:ident, cont) => { kani::cover!($o.cont, "[must] Continue taken"); };
+    ($o:ident, lag) => { kani::cover!($o.lag, "[must] peek result lags behind a fragment without END flag"); };
+    ($o:ident, hi) => { kani::cover!($o.hi, "[must] three frames with padding, term count above 2^24, mid-term start"); };
+    ($o:ident, far) => { kani::cover!($o.far, "[must] bound more than 2^32 behind the position"); };
+    ($o:ident, unl) => { kani::cover!($o.unl, "[must] unlimited block length (i32::MAX) with a mid-term start delivers"); };
+    ($o:ident, padlim) => { kani::cover!($o.padlim, "[must] leading padding handed over beyond the block length limit"); };
+    ($o:ident, ran) => { kani::cover!(true, "[must] harness runs to its end"); };
+}
+
+/// One proof harness: the run function applied to each literal instance in turn.
+macro_rules! instance {
+    ($name:ident, $run:ident, [$($inst:expr),+] $(, $c:ident)*) => {
+        #[kani::proof]
+        fn $name() {
+            let mut o = Out::none();
+            $( o = o.or($run($inst)); )+
+            $( must!(o, $c); )*
+        }
+    };
+}
+
+// Length words: n = committed, -n = claimed (in flight), 0 = untouched. Quick tier: layouts A-D with all frames committed
+// and with the last frame of A in flight; the thorough tier adds the other commit states (gaps, first frame in flight,
+// untouched tails), the last-slot layout E and the empty layout F.
+// @verif tier=quick unwind=9 fs=4865
+instance!(c05_poll, run_poll, [lay_a([32, 33, 49]), lay_a([32, 33, -49]), lay_b([49, 64, 64]), lay_c([64, 32, 0]), lay_d([96, 32, 128])], pad, unc, lim, all, end);
+// @verif tier=thorough unwind=9 fs=4865
+instance!(c05_poll_more_states, run_poll, [lay_a([32, 0, 49]), lay_a([-32, 33, 49]), lay_a([32, -33, 0]), lay_b([49, 64, 0]), lay_b([49, -64, 64]), lay_c([64, -32, 0]), lay_d([96, 32, -128]), lay_e([32, 0, 0]), lay_e([0, 0, 0]), lay_f()], pad, unc, lim, all, end);
+
+// @verif tier=quick unwind=9 fs=4865
+instance!(c05_bounded_poll, run_bounded, [lay_a([32, 33, 49]), lay_a([32, 33, -49]), lay_b([49, 64, 64]), lay_c([64, 32, 0]), lay_d([96, 32, 128])], pad, unc, lim, all, end, bound);
+// @verif tier=thorough unwind=9 fs=4865
+instance!(c05_bounded_poll_more_states, run_bounded, [lay_a([32, 0, 49]), lay_a([-32, 33, 49]), lay_b([49, 64, 0]), lay_b([49, -64, 64]), lay_c([64, -32, 0]), lay_d([96, 32, -128]), lay_e([32, 0, 0]), lay_f()], pad, unc, lim, all, end, bound);
+
+// @verif tier=quick unwind=9 fs=4865
+instance!(c05_controlled_poll, run_controlled, [lay_a([32, 33, 49]), lay_a([32, 33, -49]), lay_b([49, 64, 64]), lay_c([64, 32, 0]), lay_d([96, 32, 128])], pad, unc, lim, all, end, abort, brk, commit, cont);
+// @verif tier=thorough unwind=9 fs=4865
+instance!(c05_controlled_poll_more_states, run_controlled, [lay_a([32, 0, 49]), lay_a([-32, 33, 49]), lay_b([49, 64, 0]), lay_b([49, -64, 64]), lay_c([64, -32, 0]), lay_d([96, 32, -128]), lay_e([32, 0, 0]), lay_f()], pad, unc, lim, all, end, abort, brk, commit, cont);
+// @verif tier=quick unwind=9 fs=4865
+instance!(c05_controlled_poll_abort_redelivers, run_controlled_redelivery, [lay_a([32, 33, 49])], abort);
+
+// @verif tier=quick unwind=9 fs=4865
+instance!(c05_bounded_controlled_poll, run_bounded_controlled, [lay_a([32, 33, 49]), lay_a([32, 33, -49]), lay_b([49, 64, 64]), lay_c([64, 32, 0]), lay_d([96, 32, 128])], pad, unc, lim, all, end, bound, abort, brk, commit, cont);
+// @verif tier=thorough unwind=9 fs=4865
+instance!(c05_bounded_controlled_poll_more_states, run_bounded_controlled, [lay_a([32, 0, 49]), lay_a([-32, 33, 49]), lay_b([49, 64, 0]), lay_b([49, -64, 64]), lay_c([64, -32, 0]), lay_d([96, 32, -128]), lay_e([32, 0, 0]), lay_f()], pad, unc, lim, all, end, bound, abort, brk, commit, cont);
+
+// controlled_peek: `.from(j)` = the peek starts at frame j while the subscriber position stays at the layout's start.
+// @verif tier=quick unwind=9 fs=4865
+instance!(c05_controlled_peek, run_peek, [lay_a([32, 33, 49]), lay_a([32, 33, -49]), lay_b([49, 64, 64]).from(1), lay_c([64, 32, 0]), lay_d([96, 32, 128]).from(2)], pad, unc, all, end, bound, abort, brk, commit, cont, lag);
+// @verif tier=thorough unwind=9 fs=4865
+instance!(c05_controlled_peek_more_states, run_peek, [lay_a([32, 0, 49]), lay_a([-32, 33, 49]), lay_a([32, 33, 49]).from(3), lay_b([49, 64, 0]), lay_b([49, -64, 64]).from(2), lay_b([49, 64, 64]).from(3), lay_c([64, -32, 0]), lay_d([96, 32, -128]), lay_e([32, 0, 0]), lay_f()], pad, unc, all, end, bound, abort, brk, commit, cont, lag);
+// @verif tier=quick unwind=9 fs=4865
+instance!(c05_controlled_peek_invalid_position, run_peek_invalid, [lay_b([49, 64, 64])], ran);
+
+// @verif tier=quick unwind=9 fs=4865
+instance!(c05_block_poll, run_block, [lay_a([32, 33, 49]), lay_a([32, 33, -49]), lay_b([49, 64, 64]), lay_c([64, 32, 0]), lay_d([96, 32, 128])], pad, unc, lim, all, end);
+// @verif tier=thorough unwind=9 fs=4865
+instance!(c05_block_poll_more_states, run_block, [lay_a([32, 0, 49]), lay_a([-32, 33, 49]), lay_b([49, 64, 0]), lay_b([49, -64, 64]), lay_c([64, -32, 0]), lay_d([96, 32, -128]), lay_e([32, 0, 0]), lay_e([0, 0, 0]), lay_f()], pad, unc, lim, all, end);
+
+// @verif tier=quick unwind=9 fs=4865
+instance!(c05_closed_image_is_inert, run_closed, [lay_a([32, 33, 49])], ran);
+
+// C03 consumer side (names c05_havoc_*): garbage behind the committed frames.
+// @verif tier=quick unwind=9 unwindset=havoc_term:258 fs=4865
+instance!(c05_havoc_plain_variants, run_havoc_plain, [lay_a([32, 33, -49]), lay_b([49, 0, 0])], pad, unc);
+// @verif tier=quick unwind=9 unwindset=havoc_term:258 fs=4865
+instance!(c05_havoc_controlled_variants, run_havoc_controlled, [lay_a([32, 33, -49]), lay_b([49, 0, 0])], pad, unc, abort, brk, commit, cont);
+// @verif tier=thorough unwind=9 unwindset=havoc_term:258 fs=4865
+instance!(c05_havoc_plain_variants_more, run_havoc_plain, [lay_a([32, 33, 49]), lay_a([32, -33, 49]), lay_a([0, 33, 49]), lay_c([64, -32, 0]), lay_d([96, 32, -128])], pad, unc, all);
+// @verif tier=thorough unwind=9 unwindset=havoc_term:258 fs=4865
+instance!(c05_havoc_controlled_variants_more, run_havoc_controlled, [lay_a([32, 33, 49]), lay_a([32, -33, 49]), lay_a([0, 33, 49]), lay_c([64, -32, 0]), lay_d([96, 32, -128])], pad, unc, all, abort, brk, commit, cont);
+// @verif tier=quick unwind=14 unwindset=havoc_term:258 fs=4865
+instance!(c05_havoc_poll_access_trace, run_havoc_poll_trace, [lay_a([32, 33, -49]), lay_a([32, 0, 0])], unc);
+
+// @verif tier=thorough twin=1 unwind=9 fs=4865
+instance!(c05_twin_position_ignores_commit_state, run_twin, [lay_a([32, -33, 49])]);
+
+// Regime R2 (symbolic layout), one harness per variant.
+macro_rules! sym_instance {
+    ($name:ident, $v:expr $(, $c:ident)*) => {
+        #[kani::proof]
+        fn $name() {
+            let o = sym_run($v);
+            $( must!(o, $c); )*
+        }
+    };
+}
+
+// @verif tier=thorough unwind=9 timeout=3400 mem=26
+sym_instance!(c05_sym_poll, Variant::Poll, hi, end, unc, lim);
+// @verif tier=thorough unwind=9 timeout=3400 mem=26
+sym_instance!(c05_sym_bounded_poll, Variant::Bounded, hi, end, unc, lim, bound, far);
+// @verif tier=thorough unwind=9 timeout=3400 mem=26
+sym_instance!(c05_sym_controlled_poll, Variant::Controlled, hi, end, unc, lim, abort, brk, commit);
+// @verif tier=thorough unwind=9 timeout=3400 mem=26
+sym_instance!(c05_sym_bounded_controlled_poll, Variant::BoundedControlled, hi, end, unc, lim, bound, far, abort, brk, commit);
+// @verif tier=thorough unwind=9 timeout=3400 mem=26
+sym_instance!(c05_sym_controlled_peek, Variant::Peek, hi, end, unc, bound, far, abort, brk, commit, lag);
+// @verif tier=thorough unwind=9 timeout=3400 mem=26
+sym_instance!(c05_sym_block_poll, Variant::Block, lim, padlim, unl, unc, end);
